@@ -55,6 +55,7 @@ type graphStream struct{ baseStream }
 func init() { register(graphStream{}) }
 
 func (graphStream) Name() string    { return "graph" }
+func (graphStream) Parallel() bool  { return true } // no shared state: cases run on all cores
 func (graphStream) Props() []string { return []string{"C04", "C05", "C06"} }
 
 // Same: `Bus.AddNodeInterface` visits the interface's messages in map order; when one is
